@@ -446,6 +446,10 @@ m_open(struct Driver* d, uint64_t dev, struct Device** out)
         g_calls[k].inst = I.id;
         g_calls[k].kind = (int)I.kind;
         g_calls[k].dev = (int)dev;
+    } else if (g_hooks.failed_open_leaves_stale_handle && out) {
+        void* half_built = calloc(1, sizeof(MockCamera));
+        free(half_built);
+        *out = (struct Device*)half_built;
     }
     end_call(k, r);
     return (enum DeviceStatusCode)r;
